@@ -230,6 +230,7 @@ type params struct {
 	retryInterval time.Duration // defs.ForwarderRetryInterval (default 10 s): below the 1 s ticker a failed session is followed by the next one within the bound
 	sinkBytes   int // defs.IntermediateBufferMaxTotalBytes (bytes per batch, same two places), default 4 MiB
 	rich        bool // statement-granularity scenarios: a configuration with stateful transforms on the connection threads and in the pipelines, every record compared with a run in which the connections are served one after the other
+	lateStart   bool // connections 1.. are accepted when connection 0 executes its "start-others" step
 	sequential  bool // reference run: connection i+1 starts after connection i has finished
 	sinkBatch   int // defs.IntermediateBufferMaxNumLogs (records per batch at the input and per key set at the orchestrator sink), default 500
 }
@@ -536,6 +537,12 @@ func receiverViaNewInput(syscfg *sysloginput.Config, alloc *base.LogAllocator, s
 var captureWorld func(*world)
 
 func minOutcomes(p params) int {
+	if p.lateStart {
+		// the first connection's record always reaches the upstream first here: the arrival order cannot vary. That the worker's
+		// release really overlaps the second connection's parsing is shown by the recorded change
+		// red-C12-release-recycles-before-clearing, which this scenario (and no other) reports
+		return 1
+	}
 	if p.rich {
 		return 2 // at least two different arrival orders must have been observed
 	}
@@ -810,8 +817,8 @@ func drive(w *world) explore.Verdict {
 		if g <= 1 && len(scripts) > 0 {
 			nconn = len(scripts)
 			w.connDone = make([]bool, nconn)
-			for cidx, script := range scripts {
-				cidx, script := cidx, script
+			var launch func(cidx int, script []op)
+			launch = func(cidx int, script []op) {
 				ci := ciBase + cidx
 				vsched.Go(fmt.Sprintf("conn%d", ci), func() {
 					if p.sequential && cidx > 0 {
@@ -870,6 +877,26 @@ func drive(w *world) explore.Verdict {
 							lr.accepted = true
 						case "flush":
 							sink.Flush()
+						case "settle-start":
+							// as "settle", but the other connections are accepted (lateStart) just before the batch reaches the
+							// pipeline worker: the worker (older thread) processes and releases it while they parse
+							sink.Flush()
+							vsched.Sleep(defs.IntermediateFlushInterval+100*time.Millisecond, "conn.pause")
+							if p.lateStart && !p.sequential {
+								for j := 1; j < len(scripts); j++ {
+									launch(j, scripts[j])
+								}
+							}
+							sink.Flush()
+							vsched.Idle()
+						case "start-others":
+							// the other connections are accepted now (lateStart): their threads are younger than the pipeline
+							// workers this connection's first records have created
+							if p.lateStart && !p.sequential {
+								for j := 1; j < len(scripts); j++ {
+									launch(j, scripts[j])
+								}
+							}
 						case "settle":
 							// the client pauses: everything received so far is flushed, processed and released
 							// (the per-key buffers of the orchestrator sink are flushed by a tick only after the flush interval)
@@ -883,6 +910,12 @@ func drive(w *world) explore.Verdict {
 					sink.Close()
 					w.connDone[cidx] = true
 				})
+			}
+			for cidx, script := range scripts {
+				if p.lateStart && !p.sequential && cidx > 0 {
+					continue
+				}
+				launch(cidx, script)
 			}
 		} else {
 			w.connDone = nil
@@ -1825,6 +1858,10 @@ func fineScenarios(prop string, add func(p params, quick, thorough int)) {
 	add(params{name: "fine/2conn-2rec-2key-crossed", rich: true, conns: [][]op{{R("appA", 1), R("appB", 3)}, {R("appB", 2), R("appA", 4)}}, gens: 1, chunkRecs: 1, memCap: 2, opt: healthy, metricKeys: "[host, class]"}, 1, 1)
 	// a filtered record and a malformed line among them: drop counters and input drop counters under overlap
 	add(params{name: "fine/2conn-drop-and-bad", rich: true, conns: [][]op{{R("appA", 1), {kind: "bad", shape: "no-pri"}, R("appA", 3)}, {{kind: "line", app: "appA", drop: true, host: "host2", class: "Klass2", task: "task-2"}, R("appB", 4)}}, gens: 1, chunkRecs: 1, memCap: 2, opt: healthy, metricKeys: "[host]"}, 1, 1)
+	// a pipeline worker serializes and RELEASES a record (record and buffers go back to the pools) while another connection is
+	// in the middle of parsing: the second connection is accepted after the first has flushed a record, so its thread is
+	// younger than the worker, the worker runs first by default and one deviation stops it anywhere inside its work
+	add(params{name: "fine/release-while-parsing", rich: true, lateStart: true, conns: [][]op{{R("appA", 1), {kind: "settle-start"}, R("appA", 3)}, {R("appB", 2), R("appB", 4)}}, gens: 1, chunkRecs: 1, memCap: 2, opt: healthy, metricKeys: "[host, class]"}, 1, 1)
 	// thorough only: three records per connection over two key sets, pooled-size records among them
 	add(params{name: "fine/2conn-3rec-2key-pooled", rich: true, conns: [][]op{{R("appA", 1), func() op { o := R("appB", 3); o.pad = 1100; return o }(), R("appA", 5)}, {func() op { o := R("appB", 2); o.pad = 1100; return o }(), R("appA", 4), R("appB", 6)}}, gens: 1, chunkRecs: 2, memCap: 2, opt: healthy, metricKeys: "[host, class]"}, -2, 1)
 	if prop != "C19" {
